@@ -104,6 +104,13 @@ CHECKS = {
         note="Kernel only. Strings are abstract values, so 'text of the expression' means 'the value expr.str() returned' (printer correctness is C03); well-formedness/escaping of the file is libxml2's (assumed). NOT under contract: declaration() beyond print_declaration's chain, system_instantiation(), queries, file handling. <= 2 locations/edges/selects per template.",
         technique="sliced real writer functions executed against a ghost event trace of the libxml2 API in CBMC (assume/call/assert harnesses); known-finding classes excluded and re-checked to fail only there; native replay through write_XML_file",
     ),
+    "C03": dict(
+        category="proof",
+        text="Kernel K1 of the statement (expressions only): the REAL expression_t::get_precedence (both overloads), the REAL embrace / embrace_strict and the REAL print clauses of the binary-operator group (31 kinds), INLINE_IF, UNARY_MINUS, NOT, pre/post increment and decrement, ARRAY and XOR are executed on a parent node with arbitrary operator or atom children (printing a child is answered by a contract that logs it). For every (parent, child, position): operands are printed in order, and a child printed WITHOUT parentheses is one the grammar groups the same way when the text is parsed again - the oracle is bison's own resolution rule evaluated on tables generated from parser.y on every run (precedence level of the child's production incl. %prec vs the parent's operator token, associativity on ties). One class fails and is reported as known finding C03-KF1 (an assignment or inline-if as the LEFT operand of an assignment is printed bare: '(a = b) = c' -> 'a = b = c').",
+        design_ref="DESIGN.md section 4, C03",
+        note="Kernel only, and a narrow one: the statement's parse(str(e)) == e is NOT decided. Outside: floating-point constants (printed at default stream precision - named in the statement, a property of operator<<(double)), quantifier binders printed through type_t::str(), every query form (Pr[...], E[...], simulate, control*, strategies, MITL) and their operand layout, operator spellings, 'string conversion never throws'. Trusted: logging ostream, bison's conflict-resolution rule, induction over tree height.",
+        technique="sliced real printer clauses executed one level deep in CBMC with a logging ostream; oracle tables generated from parser.y; known-finding class excluded and re-checked to fail only there; native replay by parse/print/parse round trips",
+    ),
 }
 
 NOT_APPLICABLE = {
